@@ -117,8 +117,12 @@ def run(ctx):
             meta = {"package": gen_xml.pkg_json(pkg), "mode": mode, "format": fmt, "style_map": sm, "input_name": name, "index": i}
             bad = None
             files = []
-            if p.returncode != 0 or out is None:
+            if p.returncode != 0:
                 bad = "the command failed (exit %d): %s" % (p.returncode, p.stderr.decode("utf-8", "replace")[-200:])
+            elif out is None:
+                bad = ("the command exited 0 but did not write %s (files written: %s)" %
+                       ("the output path" if mode == "path" else "<input basename>.html in the output directory",
+                        sorted(os.listdir(outdir))[:6] if os.path.isdir(outdir) else []))
             elif err_lines[-1] != "":
                 bad = "standard error does not end each message with a newline"
             elif mode == "stdout" and False:
